@@ -88,9 +88,13 @@ def main():
             old = json.load(open(f"{dst}/meta.json"))
         except Exception:
             old = {}
-    for k in ("breaks", "needs_to_manifest"):
+    for k in ("breaks", "needs_to_manifest", "history"):
         if k in old:
             meta[k] = old[k]
+    if meta.get("confirmed") is None:
+        for k in ("confirmed", "existing_suite_with_change", "demo_with_change", "demo_without_change"):
+            if k in old:
+                meta[k] = old[k]
     json.dump(meta, open(f"{dst}/meta.json", "w"), indent=1)
 
 main()
